@@ -98,6 +98,9 @@ type NFSNode struct {
 	fileId   uint64
 	mu       sync.RWMutex // Protects attrs access
 	attrs    *NFSAttrs
+	// setattrMu serializes SETATTR requests for this object: each one copies attrs,
+	// edits the copy and lets SetAttr apply what differs from attrs
+	setattrMu sync.Mutex
 	children map[string]*NFSNode
 }
 
